@@ -131,6 +131,10 @@ def run_random_session(cfg: Config, monitors: list[Monitor], seed: int, nsteps: 
     for _ in range(nsteps):
         op = gen.next(sess.tracks)
         sess.step(op)
+        try:
+            gen.note(op, sess.tracks)
+        except Exception:
+            pass
         if sess.hang or (sess.violations and stop_on_violation):
             return sess
     if tail is not None:
